@@ -12,7 +12,7 @@
 (* The Go harness replays the commands on the real lock with one goroutine per task; what the real     *)
 (* code did is judged by SpinTrace, not by this module.                                                *)
 EXTENDS Spinlock, TLC, Json, CSV, IOUtils
-CONSTANT MaxLen
+CONSTANTS MaxLen, MaxStray
 VARIABLE hist
 svars == <<state, pc, counter, tmp, done, hist>>
 
@@ -26,6 +26,7 @@ Used(t) == pc[t] # "idle" \/ \E i \in 1..Len(hist) : hist[i][2] = t
 \* tasks are interchangeable: a task makes its first call only after all smaller ones did
 MayStart(t) == \A u \in Tasks : u < t => Used(u)
 Cmd(c, t) == hist' = Append(hist, <<c, t>>)
+NStray == Cardinality({i \in 1..Len(hist) : hist[i][1] = "srel"})
 
 Init == LockInit /\ hist = <<>>
 Next == \E t \in Tasks :
@@ -34,7 +35,7 @@ Next == \E t \in Tasks :
          \/ Call(t, "try") /\ Cmd("try", t)
    \/ /\ Quiet /\ Len(hist) < MaxLen /\ pc[t] = "wonA" /\ RetOk(t) /\ Cmd("await", t)
    \/ /\ Quiet /\ ~Racy /\ Len(hist) < MaxLen /\ RelCall(t) /\ Cmd("rel", t)
-   \/ /\ Quiet /\ ~Racy /\ Len(hist) < MaxLen /\ MayStart(t) /\ StrayCall(t) /\ Cmd("srel", t)
+   \/ /\ Quiet /\ ~Racy /\ Len(hist) < MaxLen /\ MayStart(t) /\ NStray < MaxStray /\ StrayCall(t) /\ Cmd("srel", t)
    \/ /\ Quiet /\ pc[t] = "acq" /\ XchgOk(t) /\ UNCHANGED hist
    \/ /\ Transient(t) /\ UNCHANGED hist
       /\ (XchgOk(t) \/ XchgBusy(t) \/ (pc[t] = "wonT" /\ RetOk(t)) \/ RetFail(t) \/ Store0(t) \/ RelRet(t)
